@@ -1,6 +1,7 @@
 import Feox.Proto.Dur
 import Feox.Proto.Disk
 import Feox.Proto.Shards
+import Feox.Proto.Txn
 /-! Line-protocol front end for the `Proto` acceptors (trace validation). -/
 namespace Feox.Drv.ProtoDrv
 open Feox.Proto
@@ -29,6 +30,44 @@ def handleDur (s : St) (args : List String) : Option (St × String) :=
       else match Dur.step? s.key e with
         | some k => some ({ s with key := k }, "ok")
         | none => some ({ s with dead := true }, "reject")
+
+/-- device-trace discipline (`Proto.Txn.step?`): `txn new`, `txn j <s:e,…|->` (journal slot written:
+active with these runs, or clear), `txn w <s> <e>` (data-area write of blocks `[s, e)`), `txn o`
+(metadata copy), `txn f` (fsync).  Contents do not matter to the acceptor. -/
+structure TxnSt where
+  st : Txn.St := { disk := fun _ => .zero }
+  dead : Bool := false
+
+def parseRuns (t : String) : Option Txn.Runs :=
+  if t == "-" then some []
+  else (t.splitOn ",").mapM fun r =>
+    match (r.splitOn ":").mapM String.toNat? with
+    | some [a, b] => some (a, b)
+    | _ => none
+
+def handleTxn (s : TxnSt) (args : List String) : Option (TxnSt × String) :=
+  let ev : Option Txn.Ev :=
+    match args with
+    | ["j", runs] => (parseRuns runs).map .journal
+    | ["w", a, b] => do let a ← a.toNat?; let b ← b.toNat?; pure (.write ⟨a, b, fun _ => .junk⟩)
+    | ["o"] => some .other
+    | ["f"] => some .fsync
+    | _ => none
+  match args with
+  | ["new"] => some ({}, "ok")
+  | ["resume", runs] =>
+    -- a store opened on an existing file: the durable journal is what the file holds
+    (parseRuns runs).map fun j => ({ st := { disk := fun _ => .zero, jdur := j } }, "ok")
+  | _ =>
+    match ev with
+    | none => none
+    | some e =>
+      if s.dead then some (s, "ok")
+      else match Txn.step? s.st e with
+        | some st => some ({ s with st := st }, "ok")
+        | none =>
+          let why := s!"jdur={s.st.jdur} jpend={s.st.jpend} unsynced-data-writes={s.st.pend.length}"
+          some ({ s with dead := true }, s!"reject ({why})")
 
 /-- `shards W S count…` : which workers a tick must wake -/
 def handleShards (args : List String) : Option String :=
